@@ -91,6 +91,12 @@ def gen_cases_for(tier_, seed_):
     for i in range(60 if tier_ == "quick" else 600):
         r = rng_for(PROP, "late", seed_, i)
         cases.append({"kind": "late", "strings": r.sample(strings, r.randint(2, 4)) + r.sample(["2018-01-02", "10:30:00", "2018-01-02T10:30:00", "x" * 25], 2)})
+    # --disable-str-serializable-types through the Cli class: one object run twice / configured twice (no disabled type in any output)
+    for i in range(40 if tier_ == "quick" else 400):
+        r = rng_for(PROP, "cli", seed_, i)
+        names = r.sample(NAMES + list(ACTUAL.values()), r.randint(1, 3))
+        cases.append({"kind": "cli_disable", "disable": names, "datetime": r.random() < 0.5, "fw": r.choice(["dataclasses", "attrs", "base", "pydantic"]),
+                      "first": r.choice(["same", "nothing-disabled", "other-disabled", "datetime-only"]), "again": r.random() < 0.5})
     # multi-string fields end to end
     for i in range(300 if tier_ == "quick" else 5000):
         r = rng_for(PROP, "multi", seed_, i)
@@ -278,6 +284,37 @@ def run_case(case):
                         W("disabled-type-in-output", f"{smp['a']!r} annotated {ann[0]} after remove_by_name({name!r})")
         cnt = {"disable_detections": n, "types_removed": len(should_go)}
         nontrivial = bool(should_go)
+    elif kind == "cli_disable":
+        import json
+        import re
+        import tempfile
+        from .. import clireuse
+        doc = [{"a": "1", "b": "2.5", "c": "true", "d": "2018-01-02", "e": "10:30:00", "f": "2018-01-02T10:30:00", "g": ["1", "2"], "h": {"k": "1.5"},
+                "i": ["true", "false"], "j": [{"d2": "1999-12-31", "n": "7"}]}]
+        gone = {n for n in NAMES for name in case["disable"] if n == name or ACTUAL[n] == name}
+        with tempfile.TemporaryDirectory(prefix="j2m_c09_") as td:
+            with open(td + "/in.json", "w") as f:
+                json.dump(doc, f)
+            base = ["-m", "Root", "in.json", "-f", case["fw"]]
+            second = base + (["--datetime"] if case["datetime"] else []) + ["--disable-str-serializable-types"] + case["disable"]
+            first = {"same": second, "nothing-disabled": base + ["--datetime"], "datetime-only": base + ["--datetime"],
+                     "other-disabled": base + ["--disable-str-serializable-types"] + [n for n in NAMES if n not in gone][:1]}[case["first"]]
+            r = clireuse.run(first, second, td, again=case["again"])
+        if r.returncode != 0:
+            W("cli-reuse-run-fails", f"Cli object: parse_args({first}); run(); parse_args({second}); run(){'; run()' if case['again'] else ''} failed: "
+                                     f"{r.stderr.strip().splitlines()[-1][:200] if r.stderr.strip() else r.returncode}")
+        else:
+            body = r.stdout.split('"""\n', 2)[-1]
+            for n in sorted(gone):
+                # frameworks other than pydantic spell the pseudo-type by its class name; pydantic annotates the actual type
+                if case["fw"] != "pydantic" and re.search(rf"\b{n}\b", body):
+                    W("disabled-type-in-cli-output", f"{n} appears in the output of the {'second ' if case['again'] else ''}run after parse_args({first}); run(); "
+                                                     f"parse_args({second}): {[ln.strip() for ln in body.splitlines() if n in ln][:2]}")
+                elif case["fw"] == "pydantic" and re.search(rf":\s*(Optional\[|List\[|Dict\[str, )*{ACTUAL[n]}\b", body):
+                    W("disabled-type-in-cli-output", f"a string field is annotated {ACTUAL[n]} although {n} is disabled ({second}): "
+                                                     f"{[ln.strip() for ln in body.splitlines() if re.search(rf'[:\[ ]{ACTUAL[n]}\b', ln)][:2]}")
+        cnt = {"cli_disable_runs": 1, "types_removed": len(gone)}
+        nontrivial = bool(gone)
     elif kind == "collection":
         from ..monitors import dump_type
         reg = driver.make_str_registry(case["order"])
@@ -348,7 +385,7 @@ def main():
                 "true/false/nan/inf, ISO date/time/datetime fragments with and without zone, week/ordinal forms, near-misses, mutations) x "
                 "ordered sub-registries of the six shipped pseudo-types (quick: 200 of 1957, thorough: all); resolve() on every non-empty "
                 "subset in two argument orders (also with a second valid replacement edge); remove_by_name for class / actual-type / "
-                "near-miss names; parse-render-parse for every accepted string; multi-string fields end to end. non-trivial = a case in "
+                "near-miss names, and --disable-str-serializable-types on a Cli object that is run twice / configured twice in one process; parse-render-parse for every accepted string; multi-string fields end to end. non-trivial = a case in "
                 "which at least one string was accepted / one resolve had a single result",
                 ["'parser accepts' means to_internal_value returns without ValueError"])
     results, infra = run_shards(PROP, cases, timeout_per_case=120)
@@ -359,4 +396,4 @@ def main():
     v.extra["resolve_subsets_exhaustive"] = True
     v.extra["ordered_subregistries_exhaustive"] = tier() == "thorough"
     return v.finish(floor_nontrivial=50, monitors_required=("detections", "detected_pseudo", "resolve_calls", "resolve_single_results",
-                                                             "roundtrips", "disable_detections", "multi_fields", "collections", "late_registrations"))
+                                                             "roundtrips", "disable_detections", "multi_fields", "collections", "late_registrations", "cli_disable_runs"))
